@@ -217,7 +217,7 @@ def main(argv):
                 return 1
             return 0
 
-        nsess = 150 if tier == "quick" else 5000
+        nsess = int(os.environ.get("VERIF_C13_SESSIONS", 0)) or (500 if tier == "quick" else 8000)
         sessions = [gen_session(seed, i, tier) for i in range(nsess)]
         # regression corpus
         import glob
